@@ -54,10 +54,7 @@ def triggers(tree, nat):
     from sqlalchemy.sql import elements as E, operators as O, visitors
 
     out = []
-    for n in X.walk(tree):
-        if n[0] == "not" and n[2][0] == "is":
-            out.append("is-expr-negation-lost")
-            break
+    # "is-expr-negation-lost" (~(a.is_(b)) rendered "a IS b") was repaired in /repo (fix: 7e3b43f): no longer excluded
     f2 = f3 = False
     for el in visitors.iterate(nat):
         if isinstance(el, E.BinaryExpression):
